@@ -93,6 +93,9 @@ try:
                 placed.append(os.path.relpath(dest, wt))
     result["demo_files"] = placed
     if demo_cmd:
+        # the demo files are already placed: drop a leading "cp demo/... &&"
+        demo_cmd = re.sub(r"^\s*cp\s+\S+\s+\S+\s*&&\s*", "", demo_cmd)
+        demo_cmd = demo_cmd.split("#")[0].strip()
         cmd = demo_cmd.replace("/tmp/seed-%s" % pid.lower(), wt)
         cmd = re.sub(r"cd\s+\S+\s*&&\s*", "", cmd) if "cd " in cmd and wt not in cmd else cmd
         rc1, out1 = run(cmd, cwd=wt, timeout=1800)
